@@ -193,3 +193,26 @@ Example c08_boundary_examples :
   /\ compile code16 no_texts (mkf 0 BOther :: plain_msgs 2 1) 0 = None
   /\ compile code16 no_texts [] 0 = None.
 Proof. exact boundary_examples. Qed.
+
+(* 7. Two of the read paths as executable producers (budgets in frames: the byte budgets of the code only decide how
+   many frames a scan returns).  The mr tail scan with ANY budget k, once the acceptance test of
+   load_context_compile_input_recent_messages_v1 passes, and the mr seek window give the full-replay result. *)
+Theorem c08_tail_path_agrees : forall P texts k l a evs from,
+  incr l -> wf_refs l = true ->
+  tail_path (p_limit P) k l a = Some (evs, from) ->
+  Some (compile_with P texts evs (filter is_ckpt l) from a) = compile P texts l a.
+Proof. exact tail_path_agrees. Qed.
+Print Assumptions c08_tail_path_agrees.
+
+Theorem c08_window_path_agrees : forall P texts l a from,
+  incr l -> wf_refs l = true -> cut_point l a = Some from ->
+  Some (compile_with P texts (mr_window (p_limit P) l from) (filter is_ckpt l) from a) = compile P texts l a.
+Proof. exact window_path_agrees. Qed.
+Print Assumptions c08_window_path_agrees.
+
+Example c08_producers_example :
+  option_map snd (tail_path 16 34 ex_log 58) = Some 60
+  /\ tail_path 16 10 ex_log 58 = None
+  /\ count_msgs_upto 60 (mr_window 16 ex_log 60) = 16%nat
+  /\ (length (mr_window 16 ex_log 60) < length (filter mr_keep ex_log))%nat.
+Proof. exact producers_example. Qed.
